@@ -219,12 +219,28 @@ fn dual_action(_k: u64, _rip: usize) {
     }
 }
 
+/// Set by a consuming thread that unwinds (a panic inside the iterator).
+static THREAD_DIED: AtomicBool = AtomicBool::new(false);
+
+struct DiedOnUnwind;
+
+impl Drop for DiedOnUnwind {
+    fn drop(&mut self) {
+        if std::thread::panicking() {
+            THREAD_DIED.store(true, Ordering::SeqCst);
+        }
+    }
+}
+
 fn wait_for(what: &AtomicU64, v: u64, ms: u64) -> bool {
     let t0 = crate::now_ms();
     let mut i = 0u64;
     while what.load(Ordering::SeqCst) != v {
         i += 1;
         if i % 256 == 0 {
+            if THREAD_DIED.load(Ordering::SeqCst) {
+                return false;
+            }
             std::thread::yield_now();
             if crate::now_ms() - t0 > ms {
                 return false;
@@ -291,6 +307,7 @@ where
         let sh = sh.clone();
         std::thread::spawn(move || {
             crate::set_thread(HELPER, class::VICTIM);
+            let _died = DiedOnUnwind;
             let mut last_order = 0u64;
             while let Ok(p2) = rx.recv() {
                 let t = TRIAL_NO.load(Ordering::SeqCst);
@@ -314,6 +331,7 @@ where
         let sh = sh.clone();
         std::thread::spawn(move || {
             crate::set_thread(CONSUMER, class::CONSUMER);
+            let _died = DiedOnUnwind;
             sh.consumer_pth.store(unsafe { libc::pthread_self() } as usize, Ordering::SeqCst);
             let mut served = 0u64;
             let mut last_order = 0u64;
@@ -447,9 +465,13 @@ where
             // measure the window with an action that never fires
             let mut gap = 0u64;
             let mut k = u64::MAX - 1;
+            // every k is run twice: the extra delivery that probes for a wake-up byte comes either right after the interrupted
+            // batch (before anything else is drained) or only after the follow-up batch has been checked (it would otherwise
+            // report a signal whose own flag the interrupted scan had wiped)
+            let mut probe_first = false;
             loop {
                 let measuring = k == u64::MAX - 1;
-                if !measuring {
+                if !measuring && !probe_first {
                     trial_idx += 1;
                     if trial_idx % of != shard || (stride > 1 && (trial_idx / of + seed) % stride != 0) {
                         k += 1;
@@ -460,6 +482,7 @@ where
                     }
                 }
                 // --- one trial
+                THREAD_DIED.store(false, Ordering::SeqCst);
                 let d_before = DELIV[sig as usize].load(Ordering::SeqCst);
                 let y_before = YIELDS[sig as usize].load(Ordering::SeqCst);
                 if !deliver(preset) {
@@ -470,14 +493,17 @@ where
                 istep::plan_for(CONSUMER, w.0, w.3, k, 20_000, w.1 as u64, w.2 as u64, true, if dual { dual_action } else { scan_action });
                 let nested_before = NESTED_SENT.load(Ordering::SeqCst);
                 if !run_cmd(scan_cmd, &mut served) {
-                    // the consumer does not come back: who is stuck?
+                    // the consumer does not come back: a thread that died inside the iterator is a verdict, anything else is not
+                    if THREAD_DIED.load(Ordering::SeqCst) {
+                        acc.bad("C10", "consumer-panicked", format!("{}: a consuming thread panicked inside the iterator (pending() must never panic) [window {}#{} k {}]", ename, director::site_name(w.0), w.3, k));
+                    }
                     acc.inconclusive = Some(format!("{}: consumer did not finish its scan (window {} k {})", ename, wi, k));
                     break 'outer;
                 }
                 istep::cancel_plan(CONSUMER);
                 // one more delivery before anything else is drained: it must leave a wake-up byte (checked inside `deliver`),
                 // whatever the interrupted scan and the delivery nested in it did to the instance
-                if !deliver(1) {
+                if probe_first && !deliver(1) {
                     acc.inconclusive = Some("delivery did not arrive".into());
                     break 'outer;
                 }
@@ -512,7 +538,7 @@ where
                 }
                 // --- verdicts
                 let nested = NESTED_SENT.load(Ordering::SeqCst) - nested_before;
-                let label = format!("{} {} preset={} window={}#{} k={} fired={} rip={:#x}", if dual { "dual" } else { "scan" }, ename, preset, director::site_name(w.0), w.3, k, fired, rip);
+                let label = format!("{} {} preset={} window={}#{} k={} probe-{} fired={} rip={:#x}", if dual { "dual" } else { "scan" }, ename, preset, director::site_name(w.0), w.3, k, if probe_first { "first" } else { "last" }, fired, rip);
                 let reported = |s: usize| STORE_STAMP[s].load(Ordering::SeqCst) < YIELD_STAMP[s].load(Ordering::SeqCst) || STORE_STAMP[s].load(Ordering::SeqCst) == 0;
                 let s = sig as usize;
                 if OPEN_BRACKETS.load(Ordering::SeqCst) != 0 {
@@ -539,6 +565,20 @@ where
                 } else if !run_cmd(1, &mut served) {
                     acc.inconclusive = Some("consumer did not answer".into());
                     break 'outer;
+                }
+                if !probe_first {
+                    // the probing delivery comes last in this variant: wake-up byte (inside `deliver`), then reported by a batch
+                    if !deliver(1) {
+                        acc.inconclusive = Some("delivery did not arrive".into());
+                        break 'outer;
+                    }
+                    if !run_cmd(1, &mut served) {
+                        acc.inconclusive = Some("consumer did not answer".into());
+                        break 'outer;
+                    }
+                    if !reported(s) {
+                        acc.bad("C09", "delivery-lost-in-scan", format!("a delivery of signal {} made after the interrupted batch and its follow-up was not reported by the next batch [{}]", sig, label));
+                    }
                 }
                 let d = DELIV[s].load(Ordering::SeqCst) - d_before;
                 let y = YIELDS[s].load(Ordering::SeqCst) - y_before;
@@ -580,13 +620,23 @@ where
                 }
                 if measuring {
                     k = 1;
+                } else if !probe_first {
+                    probe_first = true;
                 } else {
+                    probe_first = false;
                     k += 1;
                     if k > gap + 1 {
                         break;
                     }
                 }
             }
+        }
+    }
+    if !acc.bad.is_empty() {
+        // a verdict is a verdict even if a thread is gone
+        acc.inconclusive = None;
+        if THREAD_DIED.load(Ordering::SeqCst) {
+            return;
         }
     }
     if acc.inconclusive.is_some() {
